@@ -53,6 +53,7 @@ def run(ctx: Ctx) -> None:
     for s in (SNAP_RS, isa.LIB_RS, TIMER_RS, KB_RS, isa.STATE_RS):
         ctx.file_used(REPO / rs.file_for(s))
     layout(ctx, py, rs)
+    rust_apply_whole(ctx, rs, "C16.2/apply-whole", "C16.2/rust-apply-whole")
     keys(ctx, py, rs)
     temp_key_format(ctx, py, rs)
     field_cover_rust(ctx, rs)
@@ -67,6 +68,7 @@ def run(ctx: Ctx) -> None:
     live_sources(ctx, py)
     lcd_state_cover(ctx, py, rs)
     restore_identity(ctx, py, rs)
+    save_is_pure_and_restore_is_unconditional(ctx, py)
 
 
 # ---------------------------------------------------------------------------
@@ -846,3 +848,144 @@ def restore_identity(ctx: Ctx, py: PyProgram, rs: RustProgram) -> None:
                 ctx.violation("C16.6/restore-exact", key_of(ld.file, ld.qual, f"{nm} overwritten after being restored"),
                               f"apply_snapshot_info restores self.{nm} from the snapshot and then overwrites it with `{expr_text(a['r'])}` under a condition of its own: a snapshot taken in that state (e.g. inside a handler, written by the Python saver with an empty frame stack) resumes differently", f"{ld.file}:{a['ln']}")
     ctx.instance("C16.6/restore-identity", "LCD state restore expressions evaluated over each register's domain; Rust timer fields not overwritten after restore", n, 150)
+
+
+def rust_apply_whole(ctx: Ctx, rs: RustProgram, rule: str, inst: str) -> None:
+    """The Rust restore writes every layout register *whole*, through the name looked up from the layout: a restore through named
+    sub-registers is not the identity (writing IL clears IH; F restored through FC/FZ loses bits 2..7).  Shared with C08."""
+    fn = rs.fn(isa.LIB_RS, "apply_registers")
+    n = 0
+    loops = [l for l in walk(fn.body) if l.get("k") == "for" and "SNAPSHOT_REGISTER_LAYOUT" in expr_text(l["iter"])]
+    ctx.need(len(loops) == 1, "apply_registers: loop over SNAPSHOT_REGISTER_LAYOUT not found")
+    for c in walk(loops[0]["body"]):
+        if c.get("k") == "mcall" and c["m"] == "set_reg" and c["args"]:
+            n += 1
+            a0 = c["args"][0]
+            if a0.get("k") == "path" and a0["p"].startswith("RegName::"):
+                ctx.violation(rule, key_of(fn.file, fn.qual, "layout register restored through a named sub-register"),
+                              f"apply_registers writes `{expr_text(c)[:70]}` inside the layout loop: restoring a register through its parts is not the identity on the register file (a write to IL clears IH; F written through FC/FZ comes back without bits 2..7)", f"{fn.file}:{c['ln']}")
+    ctx.instance(inst, "set_reg calls of apply_registers' layout loop write the register named by the layout, whole", n, 1)
+
+
+# classes a snapshot saver/loader reaches through `self.<field>.<method>(...)`; methods are resolved by name over these
+SNAPSHOT_CLASSES = (
+    (EMU, "PCE500Emulator"), ("pce500/memory.py", "PCE500Memory"), ("pce500/memory_bus.py", "MemoryBus"),
+    ("pce500/display/controller_wrapper.py", "HD61202Controller"), ("pce500/display/hd61202.py", "HD61202"),
+    (KM_PY, "KeyboardMatrix"), ("pce500/keyboard_handler.py", "PCE500KeyboardHandler"),
+)
+# the CPU-visible access entry points: calling one is an access the machine can observe (handlers run, FIFOs drain, counters tick)
+ACCESS_ENTRY = {"read_byte", "read_word", "read_long", "read_bytes", "write_byte", "write_word", "write_long", "read_handler", "write_handler",
+                "handle_read", "handle_write", "read_register", "write_register", "step", "tick", "scan_tick"}
+_AGGREGATES = {"any", "all", "sum", "max", "min", "sorted", "set", "count"}
+
+
+def _snapshot_methods(ctx: Ctx, py: PyProgram) -> dict[str, list[tuple[str, str, ast.FunctionDef]]]:
+    out: dict[str, list] = {}
+    for rel, cls in SNAPSHOT_CLASSES:
+        try:
+            c = py.cls(py.module(rel), cls)
+        except Exception:  # noqa: BLE001
+            c = None
+        if c is None:
+            continue
+        ctx.file_used(REPO / rel)
+        for nm, fn in c.methods.items():
+            out.setdefault(nm, []).append((rel, cls, fn))
+    return out
+
+
+def _field_classes(py: PyProgram, classes: dict[str, tuple[str, Any]]) -> dict[tuple[str, str], str]:
+    """(class, field) -> class name, from `self.<field> = <Class>(...)` assignments (import aliases resolved through the module)"""
+    out: dict[tuple[str, str], str] = {}
+    for cname, (rel, c) in classes.items():
+        mod = py.module(rel)
+        for a in ast.walk(c.node):
+            if isinstance(a, ast.Assign) and isinstance(a.value, ast.Call) and isinstance(a.value.func, ast.Name):
+                target_cls = a.value.func.id
+                imp = mod.imports.get(target_cls)
+                if imp and imp[1]:
+                    target_cls = imp[1]
+                if target_cls in classes:
+                    for t in a.targets:
+                        if isinstance(t, ast.Attribute) and attr_chain(t.value) == "self":
+                            out[(cname, t.attr)] = target_cls
+    return out
+
+
+def _closure(py: PyProgram, root_cls: str, root_name: str, stop: set[str], depth: int = 5) -> list[tuple[str, ast.FunctionDef, list[str]]]:
+    """methods reachable from `root_cls.root_name` through `self.m(...)` and `self.<field>.m(...)` calls, the field's class taken from
+    its constructor assignment; calls to names in `stop` are not followed (the caller reports them)"""
+    from ..memo import _live_walk
+    classes: dict[str, tuple[str, Any]] = {}
+    for rel, cls in SNAPSHOT_CLASSES:
+        c = py.cls(py.module(rel), cls)
+        if c is not None:
+            classes[cls] = (rel, c)
+    fields = _field_classes(py, classes)
+    root = classes[root_cls][1].methods[root_name]
+    seen = {(root_cls, root_name)}
+    out = [(f"{root_cls}.{root_name}", root, [f"{root_cls}.{root_name}"], root_cls)]
+    todo = [(root_cls, root, [f"{root_cls}.{root_name}"], 0)]
+    while todo:
+        cls, fn, path, d = todo.pop()
+        if d >= depth:
+            continue
+        for c in _live_walk(fn):
+            if not (isinstance(c, ast.Call) and isinstance(c.func, ast.Attribute)) or c.func.attr in stop:
+                continue
+            base = attr_chain(c.func.value) or ""
+            tcls = None
+            if base == "self":
+                tcls = cls
+            elif base.startswith("self.") and base.count(".") == 1:
+                tcls = fields.get((cls, base.split(".")[1]))
+            if tcls is None:
+                continue
+            hit = classes[tcls][1].find_method(c.func.attr)
+            if hit is None or (tcls, c.func.attr) in seen:
+                continue
+            seen.add((tcls, c.func.attr))
+            q = f"{tcls}.{c.func.attr}"
+            out.append((q, hit[1], path + [q], tcls))
+            todo.append((tcls, hit[1], path + [q], d + 1))
+    return out
+
+
+def save_is_pure_and_restore_is_unconditional(ctx: Ctx, py: PyProgram) -> None:
+    """(a) Taking a snapshot is not an access: nothing the saver reaches may call a CPU-visible access entry point (a bus read runs
+    device handlers - it drains the key FIFO, ticks debounce counters, clears BUSY), so saving would change the machine's future.
+    (b) Restoring is not decided by the *content* of the saved data: a restore helper may skip its work when a part is absent, but a
+    test that aggregates over the payload (any/all/sum/...) drops saved state for particular contents."""
+    for rel, _c in SNAPSHOT_CLASSES:
+        ctx.file_used(REPO / rel)
+    n = 0
+    from ..memo import _live_walk
+    for q, fn, path, _cls in _closure(py, "PCE500Emulator", "save_snapshot", ACCESS_ENTRY):
+        n += 1
+        for c in _live_walk(fn):
+            if isinstance(c, ast.Call) and isinstance(c.func, ast.Attribute) and c.func.attr in ACCESS_ENTRY:
+                base = attr_chain(c.func.value) or unparse(c.func.value)
+                if not (base == "self" or base.startswith("self.") or "overlay" in base):
+                    continue
+                ctx.violation("C16.5/save-is-pure", key_of(EMU, q, f"{c.func.attr} while saving"),
+                              f"save_snapshot reaches `{unparse(c)[:80]}` ({' -> '.join(path)}): that is a CPU-visible access (device read handlers run, the key FIFO is drained, counters tick), "
+                              "so taking a snapshot changes what the snapshotted machine does next", f"{EMU}:{c.lineno}")
+    ns = n
+    ctx.need(ns >= 4, f"saver closure has only {ns} functions")
+    for q, fn, path, _cls in _closure(py, "PCE500Emulator", "load_snapshot", set()):
+        params = {a.arg for a in fn.args.args + fn.args.kwonlyargs if a.arg != "self"}
+        n += 1
+        for i in _live_walk(fn):
+            tests = [i.test] if isinstance(i, (ast.If, ast.IfExp, ast.While)) else []
+            for t in tests:
+                for c in ast.walk(t):
+                    if isinstance(c, ast.Call) and ((isinstance(c.func, ast.Name) and c.func.id in _AGGREGATES) or (isinstance(c.func, ast.Attribute) and c.func.attr == "count")):
+                        used = {x.id for a in c.args for x in ast.walk(a) if isinstance(x, ast.Name)}
+                        if q != "PCE500Emulator.load_snapshot" and not (used & params):
+                            continue
+                        if q == "PCE500Emulator.load_snapshot" and not used:
+                            continue
+                        ctx.violation("C16.6/restore-unconditional", key_of(EMU, q, f"restore decided by {unparse(c.func)}() of the saved data"),
+                                      f"{q} branches on `{unparse(t)[:80]}`: whether saved state is restored depends on the content of the saved data, so a snapshot taken at such a point comes back without it "
+                                      f"({' -> '.join(path)})", f"{EMU}:{i.lineno}")
+    ctx.instance("C16.5/save-pure-restore-unconditional", "functions reachable from save_snapshot (no CPU-visible access) and from load_snapshot (no content-aggregating guard)", n, 12)
